@@ -283,6 +283,26 @@ func (b *Backend) ReleaseAll() {
 	b.hub.cond.Broadcast()
 }
 
+// ReleaseArrived opens every gate on which a callback is parked right now.
+func (b *Backend) ReleaseArrived() {
+	b.hub.mu.Lock()
+	for _, g := range b.gates {
+		if g.arrived {
+			g.open = true
+		}
+	}
+	b.hub.mu.Unlock()
+	b.hub.cond.Broadcast()
+}
+
+// CloseGatesAgain ends a ReleaseAll: gates reached from now on park again
+// (gates already opened stay open).
+func (b *Backend) CloseGatesAgain() {
+	b.hub.mu.Lock()
+	b.openAll = false
+	b.hub.mu.Unlock()
+}
+
 func pick(list []Decision, i int) Decision {
 	if i < len(list) {
 		return list[i]
